@@ -371,10 +371,10 @@ def run_call(rig, cmap, c):
             p.prop = 1
             o.value = ("v", None)
         elif kind == "i":
-            it = p.stream()
+            it = iter(p.stream())
             try:
-                for item in it:
-                    o.yielded.append(item)
+                while True:     # next() by hand: a `for` would swallow a StopIteration that carries the remote content
+                    o.yielded.append(next(it))
             finally:
                 # detach the iterator now: its __del__ would otherwise run whenever the garbage collector finds it (it
                 # hangs in the traceback's frame cycle), possibly in the daemon's own acceptor thread of this process
@@ -459,14 +459,15 @@ def ctor_spec(cls, q, margs):
         e2 = cls(*margs)
     except Exception as x:
         return "!%s=%s" % (cps(q), cps(qual(type(x))))
-    if enc(list(e2.args)) == enc(list(margs)):
+    if type(e2) is cls and enc(list(e2.args)) == enc(list(margs)):
         return "-"
-    return "=%s=%s" % (cps(q), enc(list(e2.args)))
+    return "=%s=%s=%s" % (cps(q), cps(qual(type(e2))), enc(list(e2.args)))
 
 
 def driver_line(c, o, derr, batch_fallback):
     q = qual(o.cls)
-    ue = "X(%s;L();D())" % cps(qual(type(derr)) if derr is not None else DEFAULT_UNSER[c["ser"]])
+    ue = ("X(%s;%s;D())" % (cps(qual(type(derr))), enc(list(derr.args)))) if derr is not None else \
+        "X(%s;L();D())" % cps(DEFAULT_UNSER[c["ser"]])
     ex = "E" + enc_exc(q, o.margs, o.mattrs)
     ctor = ctor_spec(o.cls, q, o.margs)
     if c["kind"] == "b":
@@ -489,10 +490,10 @@ def check_property(ctx, c, o, derr):
     x = o.caught
     ser, kind = c["ser"], c["kind"]
     name = o.cls.__name__
+    if kind == "i" and f["stop"]:
+        ctx.count("vacuous:stream-stopiteration-is-end-of-stream")     # the iterator protocol's own signal
+        return
     if x is None:
-        if kind == "i" and f["stop"]:
-            ctx.count("vacuous:stream-stopiteration-is-end-of-stream")
-            return
         ctx.fail("no-exception:" + KIND_NAME[kind], "the remote code raised %s but the caller's call returned %r (%s)"
                  % (name, o.value, describe(c)), c)
         return
@@ -540,7 +541,7 @@ def check_property(ctx, c, o, derr):
             ctx.fail(sig, "%s with content %s cannot serialise; the caller got %s%r instead of a Pyro error describing the "
                      "original (%s)" % (name, ser, type(x).__name__, tuple(str(a)[:120] for a in x.args), describe(c)), c)
             return
-        if f["sec"] or kind == "c":
+        if kind == "c" or ((f["sec"] or f["comm"]) and kind != "b"):
             ctx.count("out-of-statement:reply-then-connection-dropped")
         elif o.next != "ok":
             ctx.fail("fallback-next-call:" + KIND_NAME[kind], "next call after the fallback error: %s (%s)" % (o.next, describe(c)), c)
@@ -571,7 +572,7 @@ def check_property(ctx, c, o, derr):
         ctx.fail("roundtrip-mismatch:" + KIND_NAME[kind], "remote %s%r with attributes %r arrived with different %s (%s)"
                  % (name, tuple(o.margs), want_attrs, "; ".join(problems), describe(c)), c)
         return
-    if f["sec"] or kind == "c":
+    if kind == "c" or ((f["sec"] or f["comm"]) and kind != "b"):
         ctx.count("out-of-statement:reply-then-connection-dropped")
     elif o.next != "ok":
         ctx.fail("next-call-fails:" + KIND_NAME[kind], "the exception arrived intact but the next call on the proxy: %s (%s)"
@@ -722,6 +723,9 @@ def _run(ctx, name, n_extra, n_decode, do_model):
             real = real_line(o, derr)
             if len(ctx.samples) < 6 and x is not None and c["attrs"] and c["kind"] in ("b", "g", "i"):
                 ctx.sample({"case": c, "observed": real[:300]})
+            if c.get("unser") and derr is None:
+                ctx.count("model:skipped-lossy-but-serialisable")    # the model's `obj` means: dumps raises
+                continue
             lines.append(driver_line(c, o, derr, batch_fallback))
             reals.append(real)
             kept.append(c)
@@ -758,7 +762,7 @@ def _run(ctx, name, n_extra, n_decode, do_model):
 
 
 def correspondence(ctx):
-    _run(ctx, "corr", ctx.n(600, 16000), ctx.n(1500, 40000), True)
+    _run(ctx, "corr", ctx.n(600, 50000), ctx.n(1500, 100000), True)
 
 
 def oracle(ctx):
